@@ -54,9 +54,10 @@ class LambdaTag:
 
 
 class BoundMethod:
-    def __init__(self, recv: Val, name: str):
+    def __init__(self, recv: Val, name: str, after=None):
         self.recv = recv
         self.name = name
+        self.after = after  # super(): resolve the method in the MRO after this class
 
 
 def z_and(*xs):
@@ -149,6 +150,13 @@ class ExprMixin:
         return self.truth(v, st, node)
 
     def truth(self, v: Val, st, node=None):
+        if not v.is_py and isinstance(v.ty, T.Opt):
+            # Optional: None is falsy, a present value has the truthiness of its type (objects: the class decides)
+            s = v.ty.sort()
+            return z_and(s.is_some(v.term), self.truth(Val(v.ty.inner, s.val(v.term)), st, node))
+        if not v.is_py and isinstance(v.ty, T.Union):
+            s = v.ty.sort()
+            return z_or(*[z_and(getattr(s, f"is_alt{i}")(v.term), self.truth(Val(a, getattr(s, f"v{i}")(v.term)), st, node)) for i, a in enumerate(v.ty.alts)])
         r = truthy(v)
         if r is None:  # Ref: class-defined truthiness
             cs = self.class_of(v.ty)
@@ -157,7 +165,10 @@ class ExprMixin:
             if cs.length is not None:
                 n = cs.length(self, st, v)
                 return lift(n) != 0
-            return True
+            pycls = self.real_class(cs)
+            if pycls is not None and (getattr(pycls, "__bool__", None) is not None or getattr(pycls, "__len__", None) is not None):
+                raise Unsupported(f"truthiness of {cs.name}: the real class {pycls.__qualname__} defines __bool__/__len__ but the class model has no truth=/length= hook", node)
+            return True  # an object of a class without __bool__ / __len__ is truthy
         return r
 
     # ---- atoms -------------------------------------------------------------------
@@ -228,15 +239,24 @@ class ExprMixin:
         if any(k is None for k in node.keys):
             from . import models
 
+            # {**a, k: v, **b}: left to right, later entries overwrite earlier ones (dict.update semantics)
             cur = None
             for k, vnode in zip(node.keys, node.values):
                 if k is None:
-                    if cur is not None:
-                        raise Unsupported("dict unpacking not in first position", node)
-                    cur = self.eval(vnode, st)
+                    other = self.deopt(self.eval(vnode, st), st, node)
+                    if not ((other.is_py and isinstance(other.py, dict)) or isinstance(other.ty, T.Dict)):
+                        raise Unsupported(f"dict unpacking of {other.ty}", node)
+                    if cur is None:
+                        cur = other
+                    else:
+                        if cur.is_py and isinstance(cur.py, dict) and not other.is_py:
+                            cur = coerce(cur, other.ty)
+                        elif other.is_py and isinstance(other.py, dict) and not cur.is_py:
+                            other = coerce(other, cur.ty)
+                        cur, _ = models.mutate(self, st, cur, "update", [other], {}, node)
                 else:
                     if cur is None:
-                        raise Unsupported("dict unpacking not in first position", node)
+                        cur = Val(PYOBJ, None, {}, True)
                     cur = models.set_item(self, st, cur, self.eval(k, st), self.eval(vnode, st), node)
             return cur
         ks = [self.eval(k, st) for k in node.keys]
@@ -291,7 +311,16 @@ class ExprMixin:
                 if t != is_and:
                     res = v
                 continue
-            res = ops.ite(t, res, v) if is_and else ops.ite(t, v, res)
+            if is_and:
+                res = ops.ite(t, res, v)
+            else:
+                try:
+                    res = ops.ite(t, v, res)
+                except (Unsupported, ContractMisfit):
+                    # `a or b` with a: Optional[X], b: X — where a is chosen it is truthy, hence not None
+                    if v.is_py or not isinstance(v.ty, T.Opt):
+                        raise
+                    res = ops.ite(t, Val(v.ty.inner, v.ty.sort().val(v.term)), res)
         return res
 
     def e_IfExp(self, node, st):
@@ -335,6 +364,10 @@ class ExprMixin:
             a, b = self.deopt(a, st, node), self.deopt(b, st, node)
         if isinstance(op, (ast.In, ast.NotIn)):
             b = self.deopt(b, st, node)
+            if b.is_py and ops.is_carrier(b.py) and b.py[0] == "iterinfo":
+                from . import models
+
+                b = models.carrier_to_set(self, st, b.py[1], node)  # x in d.keys() / d.values() / range(..)
         if isinstance(op, (ast.In, ast.NotIn)) and isinstance(b.ty, T.Ref):
             cs = self.class_of(b.ty)
             if cs.contains is None:
@@ -487,6 +520,11 @@ class ExprMixin:
             if v is None:
                 return dflt
             x = lift(v, T.INT)
+            # the common cases (a non-negative bound, a bound within the length) get the plain term: smaller VCs
+            if (is_const(v) and v.py >= 0) or z3.eq(x, n) or self.entails(st, x >= 0):
+                if z3.eq(x, n) or self.entails(st, x <= n):
+                    return x
+                return z3.If(x > n, n, x)
             x = z3.If(x < 0, x + n, x)
             return z3.If(x < 0, 0, z3.If(x > n, n, x))
 
